@@ -13,16 +13,14 @@
                          (a class value lists the class names separated by whitespace; each run of whitespace
                           is written as one dot: C15_class_names)
      attr_list         = before ++ join glue (map attr_text attrs) ++ after        (nothing for no attributes)
-     inline_value o n  = the self-close mark | nothing (no value, children) | [space] ++ single-line value
+     inline_value o n  = the self-close mark | nothing (no value, children) | [space] ++ the line of a one-line value
      text_line d w l   = indent^d ++ before-text ++ l ++ [padding to w ++ after-text]
      node_lines d n    = (indent^d ++ head n ++ inline_value n)
                          :: text lines of a multi-line value at depth d+1
                          ++ lines of the children at depth d+1
-   Domain ([node_wf]): every node is an element (has a name or attributes); names, attribute names and
-   attribute values and ids contain no line break (class names are whitespace-separated by construction);
-   a node value is either
-   free of line breaks or has more than one line (the remaining case, a one-line value that ends in a line
-   break such as `p{x\n}`, is covered by the model/implementation correspondence only). *)
+   Domain ([node_wf]): every node is an element (has a name or attributes); names, attribute names, attribute
+   values and ids contain no line break (class names are whitespace-separated by construction).  Node values
+   are arbitrary (one line, several lines, trailing line breaks, fields). *)
 From Coq Require Import String.
 From Emmet Require Import lib.Base lib.StrLit model.MarkupTokenizer model.MarkupParser model.MarkupConvert
      model.OutStream model.FormatHtml model.FormatIndent proofs.IndentStream proofs.IndentProofs
